@@ -10,7 +10,11 @@
 //	    mode) and ONE set of client-side instances talking to it through the in-process transport; the race
 //	    detector's log is parsed at the end and every report is attributed by its stacks.
 //
-// Case numbering (replay): scenario i of part (b) is case i; round r of part (a) is case 1_000_000+r.
+//	(c) request-data isolation and plain arguments (extra.go): marker pairs over a catalogue of error-path requests
+//	    on two providers, key lists handed to exported helpers, one remote key set used for tokens in every order.
+//
+// Case numbering (replay): scenario i of part (b) is case i; round r of part (a) is case 1_000_000+r; part (c) is
+// cases >= 2_000_000 (replayed as a whole).
 package main
 
 import (
@@ -55,6 +59,7 @@ func main() {
 		"iso:api-ok:code", "iso:api-ok:userinfo", "iso:api-ok:refresh", "iso:api-ok:endsession", "iso:api-ok:revoke", "iso:api-ok:clientcreds", "iso:api-ok:device",
 		"iso:api-ok:browser", "iso:api-ok:verify", "iso:api-ok:introspect", "iso:api-ok:exchange", "iso:api-ok:token",
 		"iso:device-poll-success", "iso:redirect-probe-ok:discovery", "iso:redirect-probe-ok:token", "iso:redirect-probe-ok:userinfo",
+		"extra:pair-judged", "extra:findkey-pair-judged", "extra:keyset-token-judged",
 	)
 	run.Mandatory(mandatoryNames...)
 
@@ -66,7 +71,9 @@ func main() {
 
 	if rc := run.ReplayCase(); rc >= 0 {
 		writeInflight(run, int(rc))
-		if rc >= roundBase {
+		if rc >= extraBase {
+			runExtra(run)
+		} else if rc >= roundBase {
 			runRound(run, int(rc-roundBase))
 		} else {
 			runScenario(run, int(rc), scenarioSpecs(run, int(rc)))
@@ -93,6 +100,15 @@ func main() {
 		<-done
 	}
 	run.Extra("wall_s_isolation_part", time.Since(t0).Seconds())
+	t0 = time.Now()
+	{
+		writeInflight(run, extraBase)
+		done := make(chan struct{})
+		go func() { defer close(done); runExtra(run) }()
+		<-done
+		restoreGlobals()
+	}
+	run.Extra("wall_s_extra_part", time.Since(t0).Seconds())
 	t0 = time.Now()
 	mux.Reset()
 	restoreGlobals()
